@@ -76,7 +76,7 @@ def iterPasses : List IterRow := [
   ⟨"AttrStrings", .maybe, [.full]⟩,
   ⟨"AttrTensors", .direct, [.full]⟩,
   ⟨"AttrTensors", .maybe, [.full]⟩,
-  ⟨"BaseVars.variadic", .direct, [.full, .full, .full, .full, .full, .full, .full, .full]⟩
+  ⟨"BaseVars.variadic", .direct, [.full]⟩
 ]
 
 /-- from the source text: upper bound over all paths of the reads of the caller's `value` in the list-attribute
